@@ -51,7 +51,8 @@ RULE = ("random path expressions (depth <= 4 quick / <= 6 thorough; iri, ^, /, |
         "model).  Round g, on every ordinary case: route sparql_n3 (the query text of the path is the object's own n3(), plain or with a "
         "namespace manager; lines n3| = the text's tokens vs the Lean writer, readn3 = rdflib's parse tree and translatePath object of that "
         "text vs the Lean reader and translate), route api (in / objects / subjects / subject_objects with unique False and True, [x, x] as "
-        "a list-valued end, Graph.value) and route first_false (MulPath.eval(..., first=False) when the top is a MulPath).  non-trivial = the path has an operator and some binding with a given end has a non-empty answer; "
+        "a list-valued end, Graph.value), route first_false (MulPath.eval(..., first=False) when the top is a MulPath) and the binding shapes of a path pattern in a "
+        "BGP: ?x path ?x (same variable twice; also pre-bound by initBindings / VALUES), an end bound by another triple pattern written before / after.  non-trivial = the path has an operator and some binding with a given end has a non-empty answer; "
         "distinct = distinct (triples, path, ends)")
 ASSUMPTIONS = ["a Graph / Dataset / aggregate view is the set of its triples (C01/C02/C15)",
                "VALUES-bound ends are only compared when the term occurs in the graph (for an absent term the algebra's "
@@ -73,7 +74,8 @@ GNAME = URIRef(E + "g1")
 ROUTES = ["triples", "so", "so_unique", "so_list", "value", "slice", "resource", "eval_direct", "interleave", "interleave_b",
           "ds_union", "ds_default", "ds_named", "agg", "in_agg", "in_ds", "sparql_const", "sparql_values",
           "sparql_tree", "sparql_init", "sparql_ds_union", "sparql_ds_default", "sparql_ds_graph", "sparql_ds_init",
-          "sparql_agg", "sparql_agg_values", "sparql_agg_init", "sparql_n3", "api", "first_false"]
+          "sparql_agg", "sparql_agg_values", "sparql_agg_init", "sparql_n3", "api", "first_false",
+          "sparql_same", "sparql_join_before", "sparql_join_after", "sparql_same_init", "sparql_same_values"]
 FULL, DEFAULT, NAMED, AGG = 0, 1, 2, 3
 ROUTE_GRAPH = {"so_unique": FULL, "so_list": FULL, "value": FULL, "slice": FULL, "resource": FULL, "eval_direct": FULL,
                "interleave": FULL, "interleave_b": DEFAULT,
@@ -81,7 +83,10 @@ ROUTE_GRAPH = {"so_unique": FULL, "so_list": FULL, "value": FULL, "slice": FULL,
                "in_agg": AGG, "in_ds": FULL,
                "sparql_const": FULL, "sparql_values": FULL, "sparql_tree": FULL, "sparql_init": FULL,
                "sparql_ds_union": FULL, "sparql_ds_default": DEFAULT, "sparql_ds_graph": NAMED, "sparql_ds_init": FULL,
-               "sparql_agg": AGG, "sparql_agg_values": AGG, "sparql_agg_init": AGG, "sparql_n3": FULL, "api": FULL, "first_false": FULL}
+               "sparql_agg": AGG, "sparql_agg_values": AGG, "sparql_agg_init": AGG, "sparql_n3": FULL, "api": FULL, "first_false": FULL,
+               "sparql_same": FULL, "sparql_join_before": FULL, "sparql_join_after": FULL, "sparql_same_init": FULL,
+               "sparql_same_values": FULL}
+BGP_ROUTES = ("sparql_same", "sparql_join_before", "sparql_join_after", "sparql_same_init", "sparql_same_values")
 GNAME2 = URIRef(E + "g2")
 
 
@@ -467,6 +472,21 @@ def has_inv_neg(ast):
     return False
 
 
+def bgp_want(route, ast, T, s, o, as_coded=False):
+    """the oracle for the binding shapes of a path pattern inside a BGP (None for the ordinary routes)"""
+    if route == "sparql_same":
+        return {(x, y) for x, y in expected(ast, T, None, None, as_coded) if x == y}
+    if route in ("sparql_same_init", "sparql_same_values"):
+        return expected(ast, T, s, s, as_coded)
+    if route == "sparql_join_before":
+        subj = {t[0] for t in T}
+        return {(x, y) for x, y in expected(ast, T, None, None, as_coded) if x in subj}
+    if route == "sparql_join_after":
+        obj = {t[2] for t in T}
+        return {(x, y) for x, y in expected(ast, T, None, None, as_coded) if y in obj}
+    return None
+
+
 def relation_tag(ast, T, s, o, got_set):
     """`neginv` = the known finding C11-F5 and nothing else: the path contains a negated property set with an
     inverse member AND the wrong answer is exactly what NegatedPath.eval's forward-triple test predicts"""
@@ -675,7 +695,7 @@ def gen_empty_view(rng):
         o = s
     return {"triples": T, "ghost": ghost, "path": path, "ends": [[s, None], [None, o], [s, o], [None, None]],
             "routes": ["triples", "so", "agg", "ds_default", "ds_named", "sparql_const", "sparql_tree", "sparql_ds_union",
-                       "sparql_ds_default", "sparql_ds_graph", "sparql_n3"], "style": rng.choice([0, 1, 2])}
+                       "sparql_ds_default", "sparql_ds_graph", "sparql_n3"] + list(BGP_ROUTES), "style": rng.choice([0, 1, 2])}
 
 
 # ---- incremental construction from shared sub-path objects ------------------------------------------------
@@ -860,7 +880,7 @@ def gen_case(rng, tier, i):
     if rng.random() < 0.15:
         o = s
     ends = [[None, None], [s, None], [None, o], [s, o]]
-    routes = ["triples", "so", "agg", "in_agg", "sparql_n3", "api", "first_false"]
+    routes = ["triples", "so", "agg", "in_agg", "sparql_n3", "api", "first_false"] + list(BGP_ROUTES)
     routes += rng.sample(["so_unique", "so_list", "value", "slice", "resource", "eval_direct", "interleave"],
                          2 if tier == "quick" else 4)
     if "interleave" in routes:
@@ -913,6 +933,12 @@ def _applicable(route, case, s, o, parts):
             return False
     if route == "sparql_tree" and "sparql_const" not in case["routes"]:
         return False
+    if route in ("sparql_same", "sparql_join_before", "sparql_join_after") and not (s is None and o is None):
+        return False        # shapes of the both-ends-free pattern: `?x path ?x`, an end also bound by another pattern
+    if route in ("sparql_same_init", "sparql_same_values") and (s is None or o is not None):
+        return False        # `?x path ?x` with ?x pre-bound to the case's start term
+    if route == "sparql_same_values" and s not in {x for t in parts[FULL] for x in (t[0], t[2])}:
+        return False        # VALUES with a term absent from the graph: C15-K1 (see ASSUMPTIONS)
     if route == "first_false" and case["path"][0] != "m":
         return False        # MulPath.eval(graph, s, o, first=False): only a MulPath has the flag
     one_end = (s is None) != (o is None)
@@ -1039,6 +1065,19 @@ def _run_route(route, env, path_ast, s, o):
         return [(s, o)] if (S, P, O) in env["ds_u"] else []
     txt = None if has_empty_alt(path_ast) else sparql_text(path_ast, env["style"])
     g = env["g"]
+    if route in BGP_ROUTES:
+        if route == "sparql_same":
+            res = g.query(PFX + "SELECT ?x WHERE { ?x %s ?x }" % txt)
+        elif route == "sparql_same_init":
+            res = g.query(PFX + "SELECT ?x WHERE { ?x %s ?x }" % txt, initBindings={"x": S})
+        elif route == "sparql_same_values":
+            q = ("SELECT ?x WHERE { VALUES ?x { %s } ?x %s ?x }" if env["style"] else "SELECT ?x WHERE { ?x %s ?x } VALUES ?x { %s }")
+            res = g.query(PFX + (q % ((_n3(s), txt) if env["style"] else (txt, _n3(s)))))
+        elif route == "sparql_join_before":
+            return back((r[0], r[1]) for r in g.query(PFX + "SELECT DISTINCT ?s ?o WHERE { ?s ?pp ?zz . ?s %s ?o }" % txt))
+        else:
+            return back((r[0], r[1]) for r in g.query(PFX + "SELECT DISTINCT ?s ?o WHERE { ?s %s ?o . ?zz ?pp ?o }" % txt))
+        return back((r[0], r[0]) for r in res)
     if route == "sparql_n3":
         # the query text of the path is what the object's own n3() writes (with the prefixes of a namespace manager in
         # style 2); the query is then parsed, translated and evaluated by rdflib as any other
@@ -1296,6 +1335,8 @@ def run_impl(case):
             # first=False skips the zero-length step on the given end(s): one or more steps (`?`: exactly one)
             ast_r = ["m", "+", ast[2]] if ast[1] in "*+" else ast[2]
             want = expected(ast_r, T, s, o)
+        if route in BGP_ROUTES:
+            want = bgp_want(route, ast, T, s, o)
         stats["route_" + route] = stats.get("route_" + route, 0) + 1
         stats["bind_%s%s" % ("s" if s is not None else "-", "o" if o is not None else "-")] = \
             stats.get("bind_%s%s" % ("s" if s is not None else "-", "o" if o is not None else "-"), 0) + 1
@@ -1332,7 +1373,11 @@ def run_impl(case):
             const_line[(s, o)] = obs[-1]
         gs = set(got)
         if gs != want:
-            viol.append(f"{relation_tag(ast_r, T, s, o, gs)}: route {route} path {ast} ends ({s},{o}) on {T}: missing "
+            if route in BGP_ROUTES:
+                tag = "neginv" if has_inv_neg(ast) and gs == bgp_want(route, ast, T, s, o, as_coded=True) else "relation"
+            else:
+                tag = relation_tag(ast_r, T, s, o, gs)
+            viol.append(f"{tag}: route {route} path {ast} ends ({s},{o}) on {T}: missing "
                         f"{sorted(want - gs)} extra {sorted(gs - want)}")
         if closure and len(got) != len(gs):
             viol.append(f"dup: route {route} closure path {ast} ends ({s},{o}) on {T} yields duplicates: {sorted(got)}")
@@ -1423,6 +1468,11 @@ def model_lines(case):
         lines.append("graph " + " ".join("%d,%d,%d" % t for t in parts[FULL]))
         for s, o in case["ends"]:
             lines.append(f"evalf {_w(s)} {_w(o)} {toks}")
+    if "sparql_same" in case["routes"]:
+        lines.append("graph " + " ".join("%d,%d,%d" % t for t in parts[FULL]))
+        lines += ["bgp same * " + toks, "bgp before " + toks, "bgp after " + toks]
+        for s, o in case["ends"]:
+            lines.append(f"bgp same {_w(s)} {toks}")
     return lines
 
 
@@ -1459,7 +1509,13 @@ def select_model_obs(case, out):
     n3_base = 4 * (n + 1) + ((n + 1) if "sparql_tree" in case["routes"] and not has_empty_alt(case["path"]) else 0)
     api_base = n3_base + ((n + 3) if "sparql_n3" in case["routes"] else 0)
     ff_base = api_base + ((n + 1) if "api" in case["routes"] else 0)
+    bgp_base = ff_base + ((n + 1) if "first_false" in case["routes"] and case["path"][0] == "m" else 0)
     for s, o, route in plan:
+        if route in BGP_ROUTES:
+            k = {"sparql_same": 1, "sparql_join_before": 2, "sparql_join_after": 3}.get(route, 4 + pos[(s, o)])
+            line = out[bgp_base + k]
+            res.append(_dedup_line(line) if not closure and "|" in line else line)
+            continue
         if route == "api":
             res.append(out[api_base + 1 + pos[(s, o)]])
             continue
